@@ -147,7 +147,7 @@ PLAN = {
              "other header wire layouts are the C19 harnesses",
     ),
     "C16": dict(
-        verus=["sdo", "mailbox"], kani=["wkc", "mbx"], assumptions=['as C15'], level="proof",
+        verus=["sdo", "mailbox", "pdo_sums"], kani=["wkc", "mbx"], assumptions=['as C15'], level="proof",
         claim="for an ARBITRARY reply of arbitrary length (wait_for_mailbox_response returns any bytes): mailbox_write_read's header triage (HeadersRaw / emergency / abort "
               "decode, trims) extracted whole, and - against any headers and bytes coming out of it - sdo_read (all three "
               "modes incl. the segmented loop), sdo_read_expedited, sdo_write and the SDO-info fragment loop of send_sdo_info_service never underflow/overflow, "
@@ -166,7 +166,7 @@ PLAN = {
              "Verus models `as i64` of a u64 only when the cast is marked truncating (logged substitution, same meaning as Rust's)",
     ),
     "C08": dict(
-        verus=["pdi_config", "group_config", "sm_config"], kani=[], assumptions=['configure_pdos_eeprom / configure_pdos_coe are ASSUMED to return the segment [offset in, offset out) with offset out >= offset in (iterator adapters)', 'ESC hardware semantics of sync managers and FMMUs'], level="proof",
+        verus=["pdi_config", "group_config", "sm_config", "pdo_sums"], kani=[], assumptions=['configure_pdos_eeprom / configure_pdos_coe are ASSUMED to return the segment [offset in, offset out) with offset out >= offset in (iterator adapters)', 'ESC hardware semantics of sync managers and FMMUs'], level="proof",
         claim="SubDeviceGroup::configure_fmmus extracted WHOLE (Verus, any number of devices, any sizes): on Ok the windows tile the image in group order - inputs "
               "[pos_i, pos_i+1) from 0 up to read_pdi_len, then outputs from read_pdi_len up to pdi_len (all inputs before all outputs, mutually disjoint, inside the image) - "
               "and read_pdi_len <= pdi_len <= MAX_PDI (the precondition C07's cycle relies on), so a layout that does not fit can only end in an error; "
@@ -230,7 +230,7 @@ PLAN = {
              "derive-decoded items (sync managers, FMMUs, PDOs, general, identity: wire layouts = C19) are not under a functional contract",
     ),
     "C13": dict(
-        verus=["eeprom_range", "subdevice_eeprom", "eeprom_items", "pdi_config"], kani=[], assumptions=['as C12', 'the repaired PDO bit-length sum of configure_pdos_eeprom is guarded by its demonstration, not by a contract'], level="proof",
+        verus=["eeprom_range", "subdevice_eeprom", "eeprom_items", "pdi_config", "pdo_sums"], kani=[], assumptions=['as C12', 'the repaired PDO bit-length sum of configure_pdos_eeprom is guarded by its demonstration, not by a contract'], level="proof",
         claim="no overflow / out-of-bounds / panic and termination of EepromRange::{new,skip_ahead_bytes,read_byte,read,write}, read_exact, write_all, start_at, size, the "
               "category walk (terminates: measure 0x10000 - word address; no overflow of the chain) and the find_string fragment (incl. the SAFETY condition of the unsafe "
               "set_len: length <= capacity, carried as a precondition - rule R17), and the item loops pdos / fmmu_mappings / sync_managers (terminate: every item "
